@@ -396,6 +396,7 @@ func (c *CheckCtx) runSeq(scs []*Scenario) error {
 			ev := all[m.L-1]
 			sc := byH[m.H]
 			props := propsOfMismatch(m, ev)
+			props = append(props, slotKeeping(all, m.L-1)...)
 			mine := false
 			for _, p := range props {
 				if p == c.Prop {
@@ -502,6 +503,9 @@ func propsOfMismatch0(m Mismatch, ev map[string]any) []string {
 			}
 			if docProp() != "C01" { // same document, other presentation / form: canonical storage
 				ps = append(ps, docProp())
+			}
+			if nm, _ := ev["nm"].(int); nm > 0 { // inputs that differ only at masked paths must pass
+				ps = append(ps, "C16")
 			}
 			return ps
 		case m.St == "different":
@@ -651,4 +655,42 @@ func propsOfMismatch0(m Mismatch, ev map[string]any) []string {
 		return []string{"C20"}
 	}
 	return []string{"C20"}
+}
+
+// slotKeeping: a divergence at a call that follows, in the same execution of the same test, a call
+// that failed before comparing (failing matchers, invalid input) is also a divergence from
+// "later calls of the test keep their slots" (C17) / "a failing call still consumes its ordinal" (C03).
+func slotKeeping(all []map[string]any, idx int) []string {
+	ev := all[idx]
+	if ev["ev"] != "match" {
+		return nil
+	}
+	var out []string
+	for i := idx - 1; i >= 0; i-- {
+		e := all[i]
+		if e["h"] != ev["h"] || e["ev"] == "proc" || e["ev"] == "reset" {
+			break
+		}
+		if e["t"] != ev["t"] {
+			continue
+		}
+		if e["ev"] == "begin" || e["ev"] == "end" {
+			break
+		}
+		if e["ev"] == "match" {
+			if mf, _ := e["mfail"].([]any); len(mf) > 0 {
+				out = append(out, "C17", "C03")
+			}
+			if inv, _ := e["invalid"].(bool); inv {
+				out = append(out, "C03")
+				switch e["api"] {
+				case "json", "sjson":
+					out = append(out, "C14")
+				case "yaml":
+					out = append(out, "C18")
+				}
+			}
+		}
+	}
+	return out
 }
